@@ -28,6 +28,9 @@ TProof ==
   /\ r.decoded => r.verdict = AllTrue(r.atoms)
   /\ r.case = "honest" => r.decoded /\ r.verdict /\ r.builder_eq_proof /\ AllTrue(r.patterns)
   /\ r.case = "simulated" => r.decoded /\ r.verdict
+  /\ r.case = "history_genuine" => r.verdict                    \* whatever was verified before
+  \* (history_variant: one field of the parameters replaced - the verdict is that of the relations under the
+  \*  parameters passed, first conjunct; a field the verifier does not use leaves it true)
   /\ (IsPerturb(r.case) \/ r.case \in Rejecting) => (~r.decoded \/ ~r.verdict)
   /\ r.case = "identity_signature" => r.is_identity
 TPattern == IsEv("pattern") /\ r.verifies /\ AllTrue(r.patterns)
